@@ -20,6 +20,7 @@ def eval_call(ex, node, st, sink):
     # externals / module-level functions registered by their dotted source text
     if dotted and dotted in ex.reg.contracts and not (isinstance(f, ast.Name) and f.id in st.vars):
         c = ex.reg.contracts[dotted]
+        kw = {k: v for k, v in kw.items() if k not in c.ignored_keywords}   # declared as not modelled (listed with the contract)
         out = []
         for s, vals in ex.ev_list(list(node.args) + list(kw.values()), st, sink):
             pos = vals[:len(node.args)]
